@@ -173,3 +173,16 @@ CORPUS += [
     V("C20", "warmup-factory-nests-warmups", _BLF, 'inner_baseline = kw.pop("baseline", "rollout_only")', 'inner_baseline = kw.pop("baseline", "rollout")', "C20.e"),
     V("C17", "batched-fetch-added-to-the-parent", _DSF, "    def __getitem__(self, idx):\n        return self.data[idx]\n", "    def __getitem__(self, idx):\n        return self.data[idx]\n\n    def __getitems__(self, idx):\n        return [self.data[i] for i in idx]\n", "C17.f"),
 ]
+
+_DEC = "rl4co/utils/decoding.py"
+_MDD = "rl4co/models/zoo/mdam/decoder.py"
+_DPE = "rl4co/envs/eda/dpp/env.py"
+_ATE = R + "atsp/env.py"
+CORPUS += [
+    V("C10", "mdam-mask-before-clipping", _MDD, "        if self.tanh_clipping > 0:\n            logits = F.tanh(logits) * self.tanh_clipping\n        if self.mask_logits:\n            logits[~mask[:, None, :]] = -math.inf\n", "        if self.mask_logits:\n            logits[~mask[:, None, :]] = -math.inf\n        if self.tanh_clipping > 0:\n            logits = F.tanh(logits) * self.tanh_clipping\n", "C10.e"),
+    V("C10", "greedy-drops-the-filters", _DEC, '    if "multistart" in decoding_strategy:\n        config["multistart"] = True\n', '    if "multistart" in decoding_strategy:\n        config["multistart"] = True\n    if "greedy" in decoding_strategy:\n        config["top_k"], config["top_p"] = 0, 0.0\n', "C10.f"),
+    V("C10", "decode-logprobs-forced-move-shortcut", _DEC, '    if "greedy" in decode_type:\n        selected = DecodingStrategy.greedy(logprobs, mask)', '    if (mask.sum(-1) == 1).any():\n        return mask.long().argmax(dim=-1)\n    if "greedy" in decode_type:\n        selected = DecodingStrategy.greedy(logprobs, mask)', "C10.f"),
+    V("C08", "dpp-mask-updated-in-place", _DPE, '        available = td["action_mask"].scatter(\n            -1, current_node.unsqueeze(-1).expand_as(td["action_mask"]), 0\n        )', '        available = td["action_mask"].scatter_(-1, current_node.unsqueeze(-1), False)', "C08.g"),
+    V("C04", "atsp-closing-edge-rolled-over-the-batch", _ATE, "torch.roll(actions, -1, dims=1)", "torch.roll(actions, -1)", "C04.a"),
+    V("C04", "mcp-quota-flattened-in-reset", G_ + "mcp/env.py", '"n_sets_to_choose": td["n_sets_to_choose"],  # (batch_size, 1)', '"n_sets_to_choose": td["n_sets_to_choose"].reshape(*batch_size),  # (batch_size,)', "C04.a"),
+]
